@@ -204,6 +204,9 @@ class JsonSchemaParser:
         name = re.sub(cls.NON_NAME_REG, '_', name).strip('_')
         if keyword.iskeyword(name):
             name += '_value'
+        if not name.isidentifier():
+            # empty, or starting with a digit
+            name = 'field_' + name
         if excludes:
             i = 1
             origin = name
@@ -263,8 +266,10 @@ class JsonSchemaParser:
             else:
                 prop_schema = prop
             attname = prop_schema.get('x-var-name') or key
-            if not valid_attr(attname) or attname in attrs or hasattr(dict, attname):
-                attname = self.get_attname(attname, excludes=list(attrs))
+            if not valid_attr(attname) or attname in attrs or hasattr(self.object_base_cls, attname):
+                # names the data class cannot use as attributes (mapping methods, names already taken) get a suffix
+                attname = self.get_attname(
+                    attname, excludes=list(attrs) + dir(self.object_base_cls) + [k for k in properties if k != key])
             alias = None
             if attname != key:
                 alias = key
